@@ -57,6 +57,24 @@ class SPure(PureScheduler):
         return "P%d" % self.jid
 
 
+def sched_id(o):
+    """the id the scheduler gave to a job, through the public `repr_id()` ('??' = none yet)"""
+    try:
+        r = o.repr_id()
+    except Exception:               # noqa
+        return None
+    return None if r == "??" else r
+
+
+def text_label_of(o):
+    """the documented labelling rule: the `label` attribute, else `text_label()`, else NOLABEL"""
+    lab = getattr(o, "label", None)
+    if lab is not None:
+        return lab
+    t = o.text_label()
+    return t if t is not None else "NOLABEL"
+
+
 def quiet(fn, *a, **k):
     buf = io.StringIO()
     with contextlib.redirect_stdout(buf):
